@@ -174,6 +174,21 @@ theorem migration_restart (prefixes : List Nat) (e : MEnv) (c : CrashAt)
     | some t =>
       cases c <;> simp [hr, hasMarker, tget, tget_tput]
 
+/-- **A process death inside the removal of the old directory**: the marker is set, the old
+directory is still there with whatever is left of it (all of its records, none, or anything else):
+the restart only removes it - no record of the new environment changes and nothing is copied again. -/
+theorem restart_with_marker_ignores_old (prefixes : List Nat) (e : MEnv) (left : List (Bytes × Val))
+    (hm : hasMarker e.tbl = true) :
+    storeNew prefixes { e with old := some left } = ({ e with old := none }, true) := by
+  simp [storeNew, hm]
+
+/-- the marker survives everything a migrated store does later except deleting that very key:
+after the migration `hasMarker` holds (so the previous theorem applies to every later start) -/
+theorem marker_after_migration (prefixes : List Nat) (recs : List (Bytes × Val)) (t : Tbl)
+    (_h : migrateRecs prefixes recs [] = some t) :
+    hasMarker (tput (0, markerKey) markerVal t) = true := by
+  simp [hasMarker, tget_tput]
+
 /-- **A refused migration loses nothing**: the old directory is left as it was and the new
 environment is empty (so the next start tries again). -/
 theorem refused_migration_keeps_old (prefixes : List Nat) (e : MEnv)
